@@ -26,6 +26,7 @@ def _workaround_for_static_import_finders():
 CDEF_SOURCE_STRING = "<cdef source string>"
 _r_comment = re.compile(r"/\*.*?\*/|//([^\n\\]|\\.)*?$",
                         re.DOTALL | re.MULTILINE)
+_r_other_whitespace = re.compile(r"[\r\f\v]")
 _r_define  = re.compile(r"^\s*#\s*define\s+([A-Za-z_][A-Za-z_0-9]*)"
                         r"\b((?:[^\n\\]|\\.)*?)$",
                         re.DOTALL | re.MULTILINE)
@@ -191,6 +192,11 @@ def _put_back_line_directives(csource, line_directives):
     return _r_line_directive.sub(replace, csource)
 
 def _preprocess(csource):
+    # The lexer only knows about blanks, tabs and newlines.  The other
+    # white space characters of C (CR, e.g. from CR LF line endings; form
+    # feed; vertical tab) are turned into these.
+    csource = csource.replace('\r\n', '\n')
+    csource = _r_other_whitespace.sub(' ', csource)
     # First, remove the lines of the form '#line N "filename"' because
     # the "filename" part could confuse the rest
     csource, line_directives = _remove_line_directives(csource)
